@@ -379,6 +379,11 @@ class DocGen:
         if ctx.fr_attr is not None: tt.set(q(NS_TTP, "frameRate"), str(ctx.fr_attr))
         if ctx.frm is not None: tt.set(q(NS_TTP, "frameRateMultiplier"), f"{ctx.frm[0]} {ctx.frm[1]}")
         if ctx.tr_attr is not None: tt.set(q(NS_TTP, "tickRate"), str(ctx.tr_attr))
+        if rng.random() < 0.15: tt.set(q(NS_TTP, "cellResolution"), rng.choice(["40 20", "32 15", "80 24"]))
+        if rng.random() < 0.12: tt.set(q(NS_TTS, "extent"), rng.choice(["640px 480px", "1920px 1080px"]))
+        if rng.random() < 0.08: tt.set(q(NS_ITTP, "activeArea"), rng.choice(["10% 10% 80% 80%", "0% 0% 100% 100%"]))
+        if rng.random() < 0.08: tt.set(q(NS_ITTP, "aspectRatio"), rng.choice(["16 9", "4 3"]))
+        if rng.random() < 0.08: tt.set(q(NS_TTP, "displayAspectRatio"), rng.choice(["16 9", "4 3"]))
         nreg = rng.choice([0, 0, 1, 1, 2, 3])
         if nreg or rng.random() < 0.1:
             head = et.SubElement(tt, q(NS_TT, "head"))
